@@ -60,6 +60,78 @@ H("twin_cur_advance_by", CUR, ["C03", "C19"], tier="quick", cfgs=("debug", "node
   bound="k<=2", funcs=["Cursor::advance_by"], timeout=300, mem=6)
 
 
+# ---------------------------------------------------------------------------------------------
+# buffer.rs
+SH = ["shadow buffer: none (real WorkTokenizedBuffer / TokenizedBuffer methods)"]
+H("buf_refines_shadow_mutators", BUF, ["C02", "C07"], bound="2 tokens, 2 lines, 2 literal bytes (contents symbolic); add_token/add_line/add_string_literal/rollback with symbolic arguments",
+  funcs=["WorkTokenizedBuffer::add_token", "WorkTokenizedBuffer::add_line", "WorkTokenizedBuffer::add_string_literal", "WorkTokenizedBuffer::rollback"], timeout=900, mem=10)
+H("buf_refines_shadow_observers", BUF, ["C02", "C15"], bound="3 tokens, 2 lines, 1 literal byte",
+  funcs=["WorkTokenizedBuffer::last_line", "WorkTokenizedBuffer::last_token", "WorkTokenizedBuffer::last_token_info", "WorkTokenizedBuffer::last_token_info_on_default_channel", "WorkTokenizedBuffer::checkpoint", "WorkTokenizedBuffer::line_count", "WorkTokenizedBuffer::token_count"], timeout=900, mem=10)
+H("buf_refines_shadow_insert", BUF, ["C02", "C18"], cfgs=("macro_sep",), bound="3 tokens, 2 lines; insert index and token symbolic",
+  funcs=["WorkTokenizedBuffer::insert_token", "WorkTokenizedBuffer::iter_token_infos"], timeout=900, mem=12)
+H("buf_add_token_nightly_full", BUF, ["C19", "C02"], bound="vector at capacity (push_within_capacity fails), token symbolic", funcs=["WorkTokenizedBuffer::add_token"], timeout=300, mem=6)
+H("buf_add_token_nightly_spare", BUF, ["C19", "C02"], bound="spare capacity, token symbolic", funcs=["WorkTokenizedBuffer::add_token"], timeout=300, mem=6)
+for nm, tier, tmo in (("n1", "quick", 600), ("n2l1", "thorough", 600), ("n2", "quick", 600), ("n3l2", "thorough", 900), ("n3", "quick", 900)):
+    H(f"buf_bulk_vs_accessors_{nm}", BUF, ["C05", "C17"], tier=tier, bound=f"detached buffer {nm}: exactly that many tokens(n)/lines(l), offsets < 1000, BOM or not",
+      funcs=["TokenizedBuffer::into_resolved_token_vec", "TokenizedBuffer::get_token_*"], assumes=["buffer satisfies the representation invariant established by C02-C04 (DESIGN.md 4.C05)"], timeout=tmo, mem=10)
+    H(f"buf_accessors_total_{nm}", BUF, ["C02", "C03", "C04"], tier=tier, bound=f"detached buffer {nm}", funcs=["TokenizedBuffer::get_token_*"],
+      assumes=["buffer satisfies the representation invariant established by C02-C04"], timeout=tmo, mem=10)
+H("twin_buf_bulk_vs_accessors", BUF, ["C05"], expect="twin", bound="n2", funcs=["TokenizedBuffer::into_resolved_token_vec"], timeout=300, mem=6)
+H("buf_line_col_vs_text_k3", BUF, ["C04", "C17", "C02", "C03"], bound="text of <= 3 code points (UTF-8 length and line-feed flag symbolic), optional BOM, 2 symbolic cut points", funcs=["TokenizedBuffer::get_token_start_line", "TokenizedBuffer::get_token_end_line", "TokenizedBuffer::get_token_start_column", "TokenizedBuffer::get_token_end_column", "TokenizedBuffer::line_count"], timeout=600, mem=8)
+H("buf_line_col_vs_text_k5", BUF, ["C04", "C17", "C02", "C03"], bound="text of <= 5 code points", funcs=["TokenizedBuffer::get_token_*line*", "TokenizedBuffer::get_token_*column*"], timeout=900, mem=8)
+H("buf_into_detached", BUF, ["C02", "C03", "C04"], bound="fixed 3-char multi-byte source; line/EOF presence symbolic", funcs=["WorkTokenizedBuffer::into_detached"], timeout=300, mem=6)
+H("buf_checkpoint_rollback", BUF, ["C02", "C04", "C07"], bound="2 tokens, 2 lines, 2 literal bytes + symbolic speculative additions", funcs=["WorkTokenizedBuffer::checkpoint", "WorkTokenizedBuffer::rollback"], timeout=600, mem=8)
+
+# ---------------------------------------------------------------------------------------------
+# lexer.rs (mod.rs) — lexer-level harnesses use the shadow buffer and the deterministic XID stand-ins
+SHS = ["WorkTokenizedBuffer::* -> shadow buffer (contract proved by buf_refines_shadow_*)", "Lexer::emit_error/push_mode -> spare-capacity append"]
+XID = ["unicode_ident::is_xid_start/continue -> fixed surrogate predicate on non-ASCII (exact on ASCII)"]
+COMMON = ["C01", "C02", "C03", "C04", "C09"]
+
+def LXH(name, props, tier, bound, funcs, timeout, mem=14, cfgs=("debug",), stubs=(), fixed="", contexts=None, weight=None, expect="pass"):
+    H(name, LEX, props, tier=tier, cfgs=cfgs, bound=bound, funcs=funcs, stubs=list(SHS) + list(stubs), timeout=timeout, mem=mem,
+      decoder="txt", contexts=contexts, weight=weight, expect=expect)
+    HARNESSES[-1]["fixed"] = fixed
+
+LXH("lx_ws_k2", COMMON + ["C06", "C11"], "quick", "<= 2 code points, first is whitespace", ["Lexer::lex_ws", "Lexer::add_line", "Lexer::emit_token"], 600, cfgs=("debug", "nodebug"), contexts=["default"])
+LXH("lx_ws_k3", COMMON + ["C06", "C11"], "thorough", "<= 3 code points", ["Lexer::lex_ws"], 1200, contexts=["default"])
+LXH("lx_cstyle_comment_k4", COMMON + ["C06", "C11", "C19"], "quick", "'/*' + <= 2 code points", ["Lexer::lex_cstyle_comment"], 900, cfgs=("debug", "nodebug"), fixed="/*", contexts=["default", "eval"])
+LXH("lx_cstyle_comment_k5", COMMON + ["C06", "C11", "C19"], "thorough", "'/*' + <= 3 code points", ["Lexer::lex_cstyle_comment"], 1800, cfgs=("debug", "nodebug"), fixed="/*", contexts=["default", "eval"])
+LXH("lx_macro_comment_k4", COMMON + ["C06"], "quick", "'%*' + <= 2 code points", ["Lexer::lex_macro_comment"], 900, fixed="%*", contexts=["default", "arg_value"])
+LXH("lx_macro_comment_k5", COMMON + ["C06"], "thorough", "'%*' + <= 3 code points", ["Lexer::lex_macro_comment"], 1800, fixed="%*", contexts=["default", "arg_value"])
+HEXS = ["hex::parse_sas_hex_string -> arbitrary Ok/Err (decoding excluded from C07)"]
+LXH("lx_single_quoted_k3", COMMON + ["C06", "C07", "C11", "C16"], "quick", "quote + <= 2 code points", ["Lexer::lex_single_quoted_str", "Lexer::resolve_string_literal_ending", "Lexer::resolve_string_literal_payload", "Lexer::add_string_literal_from_src"], 1200, stubs=HEXS, fixed="'", contexts=["quote", "eval", "arg_value"])
+LXH("lx_single_quoted_esc_k5", COMMON + ["C06", "C07", "C16"], "quick", "quote + escaped quote + <= 2 code points", ["Lexer::lex_single_quoted_str", "Lexer::resolve_string_literal_ending", "Lexer::resolve_string_literal_payload"], 1500, stubs=HEXS, fixed="'''", contexts=["quote", "eval"])
+LXH("lx_single_quoted_k4", COMMON + ["C06", "C07", "C11", "C16"], "thorough", "quote + <= 3 code points", ["Lexer::lex_single_quoted_str"], 2400, stubs=HEXS, fixed="'", contexts=["quote", "eval", "arg_value"])
+LXH("lx_single_quoted_k6", COMMON + ["C06", "C07", "C11", "C16"], "thorough", "quote + <= 5 code points", ["Lexer::lex_single_quoted_str"], 7200, mem=24, stubs=HEXS, fixed="'", contexts=["quote", "eval", "arg_value"])
+for k, tier, tmo in ((2, "quick", 900), (3, "thorough", 2400), (4, "thorough", 7200)):
+    LXH(f"lx_unrestricted_k{k}", COMMON + ["C06", "C13", "C14"], tier, f"1 dispatcher-consumed char + <= {k-1} code points", ["Lexer::lex_macro_string_unrestricted", "is_macro_amp", "is_macro_percent"], tmo, stubs=XID, contexts=["semi_text"], mem=20 if k == 4 else 14)
+    LXH(f"lx_stat_opts_string_k{k}", COMMON + ["C06", "C13", "C14"], tier, f"1 dispatcher-consumed char + <= {k-1} code points", ["Lexer::lex_macro_string_stat_opts"], tmo, stubs=XID, contexts=["stat_opts"], mem=20 if k == 4 else 14)
+    LXH(f"lx_arg_value_scan_k{k}", COMMON + ["C06", "C13"], tier, f"<= {k} code points; pnl any u32; flags symbolic", ["Lexer::lex_macro_string_in_macro_call_arg_value"], tmo + 600, stubs=XID, contexts=["arg_value"], mem=20 if k == 4 else 14)
+    LXH(f"lx_str_call_scan_k{k}", COMMON + ["C06", "C07", "C13"], tier if k > 2 else "thorough", f"<= {k} code points; pnl any u32; mask symbolic", ["Lexer::lex_macro_string_in_str_call", "Lexer::resolve_string_literal_payload"], tmo + 1200, stubs=XID, contexts=["str_call"], mem=24 if k >= 3 else 16)
+LXH("lx_str_call_scan_esc_k3", COMMON + ["C06", "C07", "C13"], "thorough", "'%(' + <= 1 code point", ["Lexer::lex_macro_string_in_str_call"], 3000, stubs=XID, fixed="%(", contexts=["str_call"], mem=20)
+FIN = ["Lexer::finalize_lexing", "Lexer::lex_expected_token", "Lexer::handle_unterminated_str_expr", "Lexer::update_last_token"]
+for nm, tier in (("str_expect_eval_p0", "quick"), ("str_expect_eval_p2", "quick"), ("while_p1", "quick"), ("str_call_p2", "quick"), ("let_p0", "quick"), ("do_p0", "thorough"),
+                 ("if_paren_p1", "quick"), ("if_paren_p2", "thorough"), ("scan_p1", "quick"), ("copy_p0", "thorough"), ("nested_str_p0", "quick")):
+    LXH(f"lx_finalize_{nm}", ["C01", "C02", "C09", "C10", "C14"], tier, "end of input; stack shape constant, mode parameters (flags, booleans) symbolic; look-behind token symbolic", FIN, 1200, contexts=["eof"])
+    HARNESSES[-1]["decoder"] = None
+LXH("twin_lx_finalize", ["C10", "C14"], "quick", "end of input", FIN, 600, expect="twin")
+HARNESSES[-1]["decoder"] = None
+LXH("lx_token_expect_symbol", COMMON + ["C06", "C14"], "quick", "<= 2 code points; expected type/channel symbolic", ["Lexer::lex_token", "Lexer::lex_expected_token"], 600, contexts=["eval"])
+LXH("lx_token_expect_semi", COMMON + ["C06", "C14"], "quick", "<= 2 code points", ["Lexer::lex_token"], 600, contexts=["default"])
+LXH("lx_token_ws_only", COMMON + ["C06", "C13", "C14"], "quick", "<= 3 code points", ["Lexer::lex_token", "Lexer::lex_ws", "Lexer::lex_cstyle_comment"], 900, contexts=["eval"])
+LXH("lx_token_make_checkpoint", COMMON + ["C07"], "quick", "<= 2 code points", ["Lexer::lex_token", "Lexer::checkpoint"], 600, contexts=["arg_or_value"])
+LXH("lx_token_macro_def_name", COMMON + ["C06"], "quick", "<= 3 code points", ["Lexer::lex_token", "Lexer::lex_macro_def_identifier"], 600, contexts=["default"])
+PRE = ["Lexer::dispatch_macro_call_or_stat", "Lexer::expect_* (all)", "Lexer::maybe_expect_macro_call_args_or_label", "needs_macro_sep"]
+LXH("lx_preload_default", ["C01", "C06", "C10", "C14", "C15", "C11", "C18", "C09"], "quick", "keyword symbolic over all 91 TokenTypeMacroCallOrStat variants; look-behind type, nesting level, pending flags symbolic", PRE, 900, cfgs=("debug", "macro_sep"), contexts=["default"])
+HARNESSES[-1]["decoder"] = None
+LXH("lx_preload_in_arg_value", ["C01", "C06", "C10", "C14", "C18"], "quick", "same, keyword met inside a macro call argument (no MacroSep)", PRE, 900, cfgs=("macro_sep",), contexts=["arg_value"])
+HARNESSES[-1]["decoder"] = None
+LXH("lx_maybe_args_or_label", COMMON + ["C10", "C13", "C14", "C15", "C18"], "quick", "<= 3 code points after a macro identifier (optional whitespace run, then any char)", ["Lexer::lex_maybe_macro_call_args_or_label", "Lexer::rollback", "Lexer::checkpoint", "Lexer::lex_ws"], 900, cfgs=("debug", "macro_sep"), contexts=["after_ident"])
+LXH("lx_label_sep", ["C18", "C10", "C05", "C04", "C01"], "quick", "<= 2 code points (optional whitespace, ':'); look-behind type symbolic", ["Lexer::lex_maybe_macro_call_args_or_label (label arm, macro_sep)", "needs_macro_sep"], 900, cfgs=("macro_sep",),
+    stubs=["WorkTokenizedBuffer::insert_token -> shadow (buf_refines_shadow_insert)", "real token vector mirrors the shadow for iter_token_infos"], contexts=["after_ident"])
+
+
 def by_property(pid, tier):
     out = []
     for h in HARNESSES:
